@@ -11,8 +11,10 @@ SPEC = dict(
                "Flocq); trim leaves exactly the k smallest with theta = the (k+1)-th; reset = fresh state; compact(ordered) has the "
                "same entries, count, emptiness, bit-identical estimate, theta (when non-empty), is strictly sorted whenever it says "
                "ordered; no history reaches a panic site because find_in_entries always succeeds (open-addressing invariant, "
-               "n <= capacity < size); n <= 15/16 * 2^(lg_k+1). The order in which rebuild re-inserts the k smallest entries "
-               "(unspecified by select_nth_unstable) is a parameter: every theorem holds for every order. Tie: the model must reproduce "
+               "n <= capacity < size); n <= 15/16 * 2^(lg_k+1). Refinement: after every history (lg_cur, theta, sorted entries, is_empty) "
+               "equal the run of a pure set machine (Spec/ThetaKmv.v) in which theta is defined by the rebuild rule. The order in "
+               "which rebuild re-inserts the k smallest entries (unspecified by select_nth_unstable) is a parameter: every theorem "
+               "holds for every order, and two orders reach the same abstract state. Tie: the model must reproduce "
                "every observation of the crate (n, theta, lg_cur, sorted entries, flags, estimates bit for bit, compact's fields, "
                "serialized bytes, raw slot array before the first rebuild) on generated histories in debug and release builds, and an "
                "independent exact-set oracle (plus a probe-path oracle on the crate's raw slot array) judges the crate's observations.",
